@@ -81,7 +81,7 @@ Lemma trim_decorated a l b : all_ws a -> all_ws b -> clean l -> trim (a ++ l ++ 
 Proof.
   intros Ha Hb [C1 C2]. unfold trim. rewrite drop_ws_app_ws by exact Ha.
   destruct l as [|c l'].
-  - cbn [app]. rewrite drop_ws_all by exact Hb. reflexivity.
+  - cbn [app]. rewrite (drop_ws_all b Hb). reflexivity.
   - rewrite drop_ws_fixed_app by (auto; discriminate). rewrite rev_app_distr.
     rewrite drop_ws_app_ws by (apply all_ws_rev, Hb). rewrite C2. apply rev_involutive.
 Qed.
@@ -144,10 +144,477 @@ Proof.
           destruct D as [D|(w & D1 & D2)]; [rewrite D; reflexivity|].
           rewrite D2, D1, rev_app_distr. cbn [rev app drop_ws]. change (is_ws 13) with true. cbv iota. reflexivity. }
         symmetry. apply G. }
-      destruct c; try reflexivity. 
-      change (match 13 with 13 => rev q | _ => y end) with (rev q).
+      change (trim (rev q) = l).
       rewrite Ht. unfold y. apply trim_decorated; assumption.
     + assert (E : match c with 13 => rev q | _ => y end = y).
       { destruct c as [|p]; [reflexivity|]. do 4 (destruct p as [p|p|]; try reflexivity). congruence. }
       rewrite E. unfold y. apply trim_decorated; assumption.
+Qed.
+
+(* ================================================================================== *)
+(* the lines of a well-formed sheet are clean, newline free and significant            *)
+(* ================================================================================== *)
+Definition line_ok (l : list N) : Prop := clean l /\ no_nl l /\ significant l = true.
+
+Lemma clean_intro c x d : is_ws c = false -> is_ws d = false -> clean ((c :: x) ++ [d]).
+Proof.
+  intros Hc Hd. split.
+  - cbn [app drop_ws]. rewrite Hc. reflexivity.
+  - rewrite rev_app_distr. cbn [rev app drop_ws]. rewrite Hd. reflexivity.
+Qed.
+
+Lemma last_app_ne {A} (a b : list A) d : b <> [] -> last (a ++ b) d = last b d.
+Proof.
+  intros Hb. induction a as [|x a IH]; [reflexivity|]. cbn [app]. 
+  destruct (a ++ b) eqn:E; [destruct a; [cbn in E; congruence|discriminate]|]. rewrite <- IH. reflexivity.
+Qed.
+
+Lemma clean_kw c kw' rest : is_ws c = false -> rest <> [] -> is_ws (last rest 0) = false ->
+  clean ((c :: kw') ++ [32] ++ rest).
+Proof.
+  intros Hc Hr Hl. rewrite (app_removelast_last 0 Hr).
+  replace ((c :: kw') ++ [32] ++ removelast rest ++ [last rest 0])
+    with ((c :: kw' ++ [32] ++ removelast rest) ++ [last rest 0]) by (cbn [app]; rewrite <- !app_assoc; reflexivity).
+  apply clean_intro; assumption.
+Qed.
+
+Lemma digit_not_ws c : is_digit c = true -> is_ws c = false /\ c <> 10 /\ c <> 32.
+Proof.
+  intros H. apply is_digit_spec in H. unfold is_ws.
+  repeat match goal with |- context [?a <=? ?b] => destruct (N.leb_spec a b); try lia end;
+  repeat match goal with |- context [?a =? ?b] => destruct (N.eqb_spec a b); try lia end; cbn; repeat split; lia.
+Qed.
+
+Lemma last_digits s : Forall is_digit_p s -> s <> [] -> is_digit (last s 0) = true.
+Proof.
+  intros F NE. rewrite Forall_forall in F. apply F. destruct s as [|x q]; [congruence|].
+  clear F NE. revert x. induction q as [|y q IH]; intros x; [left; reflexivity|].
+  right. apply IH.
+Qed.
+
+Lemma no_nl_digits s : Forall is_digit_p s -> no_nl s.
+Proof. intros F Hin. rewrite Forall_forall in F. apply F in Hin. apply is_digit_spec in Hin. lia. Qed.
+
+Lemma no_nl_cons c l : c <> 10 -> no_nl l -> no_nl (c :: l).
+Proof. intros Hc Hl [E|Hin]; [congruence|exact (Hl Hin)]. Qed.
+
+Lemma kw_no_nl : no_nl kw_CATALOG /\ no_nl kw_TRACK /\ no_nl kw_INDEX /\ no_nl kw_ISRC /\ no_nl kw_FLAGS /\ no_nl kw_PRE.
+Proof. repeat split; intros H; cbn in H; repeat (destruct H as [H|H]; [discriminate|]); exact H. Qed.
+
+Lemma significant_kw kw rest : ~ In 32 kw ->
+  (list_eqb kw kw_CATALOG || list_eqb kw kw_TRACK || list_eqb kw kw_INDEX || list_eqb kw kw_ISRC = true) ->
+  significant (kw ++ [32] ++ rest) = true.
+Proof.
+  intros Hs H. unfold significant. rewrite split_kw by exact Hs. rewrite H. reflexivity.
+Qed.
+
+Lemma kw_line_ok c kw' rest : is_ws c = false -> ~ In 32 (c :: kw') -> no_nl (c :: kw') ->
+  (list_eqb (c :: kw') kw_CATALOG || list_eqb (c :: kw') kw_TRACK || list_eqb (c :: kw') kw_INDEX || list_eqb (c :: kw') kw_ISRC = true) ->
+  rest <> [] -> is_ws (last rest 0) = false -> no_nl rest ->
+  line_ok ((c :: kw') ++ [32] ++ rest).
+Proof.
+  intros Hc Hs Hn Hk Hr Hl Hnr. split; [apply clean_kw; assumption|]. split.
+  - apply no_nl_app; [exact Hn|]. apply no_nl_app; [intros [E|[]]; discriminate|exact Hnr].
+  - apply significant_kw; assumption.
+Qed.
+
+Lemma num_facts pad n : n < TEN20 ->
+  Forall is_digit_p (num pad n) /\ num pad n <> [] /\ no_nl (num pad n) /\ is_ws (last (num pad n) 0) = false.
+Proof.
+  intros H. destruct (num_spec pad n H) as (_ & F & NE). split; [exact F|]. split; [exact NE|].
+  split; [apply no_nl_digits, F|]. apply digit_not_ws, last_digits; assumption.
+Qed.
+
+Lemma index_line_ok st i : wf_index i -> ci_num i <= 255 -> line_ok (index_line st i).
+Proof.
+  intros W Hn. pose proof (wf_index_mm i W) as Hm. destruct W as (Hs & Hf & _).
+  destruct (num_facts (st_pad_index st) (ci_num i) ltac:(unfold TEN20; lia)) as (Fn & NEn & Nn & _).
+  destruct (num_facts (st_pad_time st) (ci_mm i) Hm) as (Fm & NEm & Nm & _).
+  destruct (num_facts (st_pad_time st) (ci_ss i) ltac:(unfold TEN20; lia)) as (Fs & NEs & Ns & _).
+  destruct (num_facts (st_pad_time st) (ci_ff i) ltac:(unfold TEN20; lia)) as (Ff & NEf & Nf & Lf).
+  unfold index_line, time_text, kw_INDEX.
+  apply kw_line_ok; try reflexivity.
+  - intros H; cbn in H; repeat (destruct H as [H|H]; [discriminate|]); exact H.
+  - apply kw_no_nl.
+  - destruct (num (st_pad_index st) (ci_num i)); [congruence|discriminate].
+  - rewrite !app_assoc. rewrite last_app_ne by exact NEf. exact Lf.
+  - repeat (apply no_nl_app; [|]); try assumption; intros [E|[]]; discriminate.
+Qed.
+
+Lemma flags_line_ok : line_ok flags_line.
+Proof.
+  split; [|split].
+  - split; reflexivity.
+  - intros H; cbn in H; repeat (destruct H as [H|H]; [discriminate|]); exact H.
+  - reflexivity.
+Qed.
+
+Lemma track_line_ok st t : wf_style st -> ct_num t <= 255 -> line_ok (track_line st t).
+Proof.
+  intros (NEt & Ft) Hn.
+  destruct (num_facts (st_pad_track st) (ct_num t) ltac:(unfold TEN20; lia)) as (Fn & NEn & Nn & _).
+  unfold track_line, kw_TRACK. apply kw_line_ok; try reflexivity.
+  - intros H; cbn in H; repeat (destruct H as [H|H]; [discriminate|]); exact H.
+  - apply kw_no_nl.
+  - destruct (num (st_pad_track st) (ct_num t)); [congruence|discriminate].
+  - rewrite !app_assoc. rewrite last_app_ne by exact NEt.
+    rewrite Forall_forall in Ft. apply Ft. destruct (st_type st) as [|x q]; [congruence|].
+    clear. revert x. induction q as [|y q IH]; intros x; [left; reflexivity|]. right. apply IH.
+  - apply no_nl_app; [exact Nn|]. apply no_nl_app; [intros [E|[]]; discriminate|].
+    intros Hin. rewrite Forall_forall in Ft. destruct (Ft 10 Hin) as [_ Hne]. congruence.
+Qed.
+
+Lemma quoted_facts q s : s <> [] -> no_nl s -> is_ws (last s 0) = false ->
+  quoted q s <> [] /\ no_nl (quoted q s) /\ is_ws (last (quoted q s) 0) = false.
+Proof.
+  intros NE Nn Hl. unfold quoted. destruct q; [|auto]. split; [discriminate|]. split.
+  - apply no_nl_cons; [discriminate|]. apply no_nl_app; [exact Nn|intros [E|[]]; discriminate].
+  - change (34 :: s ++ [34]) with ((34 :: s) ++ [34]). rewrite last_app_ne by discriminate. reflexivity.
+Qed.
+
+Lemma catalog_line_ok st d : lenN d = 13 -> forallb is_digit d = true -> line_ok (catalog_line st d).
+Proof.
+  intros L D. assert (F : Forall is_digit_p d) by (apply Forall_forall; rewrite forallb_forall in D; exact D).
+  assert (NE : d <> []) by (intros ->; cbn in L; lia).
+  destruct (quoted_facts (st_quote_catalog st) d NE (no_nl_digits d F) (proj1 (digit_not_ws _ (last_digits d F NE)))) as (Q1 & Q2 & Q3).
+  unfold catalog_line, kw_CATALOG. apply kw_line_ok; try reflexivity; try assumption.
+  - intros H; cbn in H; repeat (destruct H as [H|H]; [discriminate|]); exact H.
+  - apply kw_no_nl.
+Qed.
+
+Lemma class_not_ws c : is_alpha c = true \/ is_alnum c = true \/ is_digit c = true -> is_ws c = false /\ c <> 10.
+Proof.
+  intros H.
+  assert (R : (48 <= c /\ c <= 57) \/ (65 <= c /\ c <= 90) \/ (97 <= c /\ c <= 122)).
+  { unfold is_alnum, is_alpha, is_digit in H.
+    repeat match goal with
+           | H : _ \/ _ |- _ => destruct H as [H|H]
+           | H : _ || _ = true |- _ => apply orb_prop in H
+           | H : _ && _ = true |- _ => apply andb_prop in H; destruct H as [? ?]
+           | H : (_ <=? _) = true |- _ => apply N.leb_le in H
+           end; lia. }
+  unfold is_ws.
+  repeat match goal with |- context [?a <=? ?b] => destruct (N.leb_spec a b); try lia end;
+  repeat match goal with |- context [?a =? ?b] => destruct (N.eqb_spec a b); try lia end; cbn; split; lia.
+Qed.
+
+Lemma isrc_line_ok st s : wf_isrc s -> line_ok (isrc_line st s).
+Proof.
+  intros W. pose proof W as (L & A & B & D). destruct (isrc_parts s L) as (E & L1 & L2 & L3 & L4).
+  destruct (forallb_skipn5_split s L D) as [D1 D2].
+  set (p1 := firstn 2 s) in *. set (p2 := firstn 3 (skipn 2 s)) in *. set (p3 := firstn 2 (skipn 5 s)) in *. set (p4 := skipn 7 s) in *.
+  rewrite forallb_forall in A, B, D1, D2.
+  assert (Hp : forall c, In c p1 \/ In c p2 \/ In c p3 \/ In c p4 -> is_ws c = false /\ c <> 10).
+  { intros c [H|[H|[H|H]]]; apply class_not_ws; [left; apply A, H|right; left; apply B, H|right; right; apply D1, H|right; right; apply D2, H]. }
+  assert (NE4 : p4 <> []) by (destruct p4; [cbn in L4; lia|discriminate]).
+  assert (Hlast4 : is_ws (last p4 0) = false).
+  { apply Hp. right. right. right. destruct p4 as [|x q]; [congruence|]. clear. revert x. induction q as [|y q IH]; intros x; [left; reflexivity|]. right. apply IH. }
+  assert (Hd : dashed (st_dash_isrc st) s <> [] /\ no_nl (dashed (st_dash_isrc st) s) /\ is_ws (last (dashed (st_dash_isrc st) s) 0) = false).
+  { unfold dashed. fold p1 p2 p3 p4. destruct (st_dash_isrc st).
+    - split; [destruct p1; [cbn in L1; lia|discriminate]|]. split.
+      + intros Hin. rewrite !in_app_iff in Hin. cbn [In] in Hin.
+        destruct Hin as [H|[[H|[]]|[H|[[H|[]]|[H|[[H|[]]|H]]]]]]; try discriminate;
+          [apply (Hp 10 (or_introl H))|apply (Hp 10 (or_intror (or_introl H)))|apply (Hp 10 (or_intror (or_intror (or_introl H))))|apply (Hp 10 (or_intror (or_intror (or_intror H))))]; reflexivity.
+      + rewrite !app_assoc. rewrite last_app_ne by exact NE4. exact Hlast4.
+    - rewrite E. split; [destruct p1; [cbn in L1; lia|discriminate]|]. split.
+      + intros Hin. rewrite !in_app_iff in Hin. apply (Hp 10 Hin). reflexivity.
+      + rewrite !app_assoc. rewrite last_app_ne by exact NE4. exact Hlast4. }
+  destruct Hd as (X1 & X2 & X3).
+  destruct (quoted_facts (st_quote_isrc st) _ X1 X2 X3) as (Q1 & Q2 & Q3).
+  unfold isrc_line, kw_ISRC. apply kw_line_ok; try reflexivity; try assumption.
+  - intros H; cbn in H; repeat (destruct H as [H|H]; [discriminate|]); exact H.
+  - apply kw_no_nl.
+Qed.
+
+(* ---- every line of a well-formed sheet *)
+Lemma chain_nums : forall l pf pn, index_chain pf pn l -> pn + lenN l <= 255 ->
+  Forall (fun i => ci_num i <= 255) l.
+Proof.
+  induction l as [|i r IH]; intros pf pn H L; [constructor|]. cbn [index_chain] in H. destruct H as (_ & Hn & Hr).
+  cbn [lenN] in L. constructor; [lia|]. eapply IH; [exact Hr|lia].
+Qed.
+
+Lemma track_lines_ok st t : wf_style st -> wf_track t -> ct_num t <= 255 -> Forall line_ok (track_lines st t).
+Proof.
+  intros Ws (Wix & Wshape & Wi) Hn. unfold track_lines. constructor; [apply track_line_ok; assumption|].
+  apply Forall_app. split.
+  - assert (Hfl : Forall line_ok (if ct_pre t then [flags_line] else [])) by (destruct (ct_pre t); [constructor; [apply flags_line_ok|constructor]|constructor]).
+    assert (Hil : Forall line_ok (match ct_isrc t with Some s => [isrc_line st s] | None => [] end)).
+    { destruct (ct_isrc t) as [s|]; [constructor; [apply isrc_line_ok, Wi|constructor]|constructor]. }
+    destruct (st_flags_first st); apply Forall_app; split; assumption.
+  - destruct (ct_indices t) as [|i0 r] eqn:E; [contradiction|]. destruct Wshape as (Hn0 & Hch & Hlen).
+    assert (Hnums : Forall (fun i => ci_num i <= 255) (i0 :: r)).
+    { cbn [lenN] in Hlen. constructor; [destruct Hn0 as [->|[-> _]]; lia|].
+      eapply chain_nums; [exact Hch|]. destruct Hn0 as [->|[-> _]]; lia. }
+    clear -Wix Hnums. induction Wix as [|i l Wi Wl IH]; [constructor|]. cbn [map].
+    inversion Hnums; subst. constructor; [apply index_line_ok; assumption|apply IH; assumption].
+Qed.
+
+Lemma sheet_nums : forall ts n p, sheet_ok n p ts -> n + lenN ts <= 256 -> Forall (fun t => ct_num t <= 255) ts.
+Proof.
+  induction ts as [|t r IH]; intros n p H L; [constructor|]. cbn [sheet_ok] in H. destruct H as (Hn & _ & _ & Hr).
+  cbn [lenN] in L. constructor; [lia|]. eapply IH; [exact Hr|lia].
+Qed.
+
+Lemma cue_lines_ok st c : wf_style st -> wf_cue c -> Forall line_ok (cue_lines st c).
+Proof.
+  intros Ws (_ & Hlen & Hsheet & Hcat). unfold cue_lines. apply Forall_app. split.
+  - destruct (cu_catalog c) as [d|]; [|constructor]. destruct Hcat as [L D]. constructor; [apply catalog_line_ok; assumption|constructor].
+  - pose proof (sheet_ok_wf _ _ _ Hsheet) as Wall. pose proof (sheet_nums _ _ _ Hsheet ltac:(lia)) as Nall.
+    clear Hsheet Hlen Hcat. generalize dependent (cu_tracks c). intros ts Wall.
+    induction Wall as [|t r Wt Wr IH]; intros Nall; [constructor|]. cbn [flat_map].
+    pose proof (Forall_inv Nall) as N1. pose proof (Forall_inv_tail Nall) as N2.
+    apply Forall_app. split; [apply track_lines_ok; assumption|apply IH; assumption].
+Qed.
+
+Lemma lines_eqb_refl l : lines_eqb l l = true.
+Proof. induction l as [|x l IH]; cbn [lines_eqb]; [reflexivity|]. rewrite list_eqb_refl. exact IH. Qed.
+
+Lemma filter_all_true {A} (f : A -> bool) l : Forall (fun x => f x = true) l -> filter f l = l.
+Proof. induction 1 as [|x l Hx Hl IH]; cbn [filter]; [reflexivity|]. rewrite Hx, IH. reflexivity. Qed.
+
+Lemma combine_snd {A B} : forall (a : list A) (b : list B), length a = length b -> map snd (combine a b) = b.
+Proof.
+  induction a as [|x a IH]; intros [|y b] H; cbn in *; try discriminate; [reflexivity|]. f_equal. apply IH. lia.
+Qed.
+Lemma combine_fst_forall {A B} (P : A -> Prop) : forall (a : list A) (b : list B), Forall P a ->
+  Forall (fun ab => P (fst ab)) (combine a b).
+Proof.
+  induction a as [|x a IH]; intros b H; [constructor|]. destruct b as [|y b]; [constructor|].
+  inversion H; subst. cbn [combine]. constructor; [assumption|apply IH; assumption].
+Qed.
+
+(* any decoration of the lines of a well-formed sheet satisfies the hypothesis of the import
+   theorem; so does the same text with skipped lines inserted (they are filtered out) *)
+Theorem render_matches st c decos : wf_style st -> wf_cue c ->
+  length decos = length (cue_lines st c) -> Forall wf_deco decos ->
+  cue_text_matches st c (render decos (cue_lines st c)) = true.
+Proof.
+  intros Ws Wc Hlen Hd. unfold cue_text_matches, render.
+  pose proof (cue_lines_ok st c Ws Wc) as Hok.
+  rewrite lines_render.
+  - rewrite combine_snd by exact Hlen.
+    rewrite filter_all_true; [apply lines_eqb_refl|].
+    eapply Forall_impl; [|exact Hok]. intros l (_ & _ & S). exact S.
+  - assert (G : forall (a : list deco) (b : list (list N)), Forall wf_deco a -> Forall line_ok b ->
+                Forall (fun dl => wf_deco (fst dl) /\ clean (snd dl) /\ no_nl (snd dl)) (combine a b)).
+    { induction a as [|x a IH]; intros b Ha Hb; [constructor|]. destruct b as [|y b]; [constructor|].
+      inversion Ha; inversion Hb; subst. cbn [combine]. constructor; [|apply IH; assumption].
+      cbn [fst snd]. destruct H5 as (C & Nn & _). auto. }
+    apply G; assumption.
+Qed.
+
+(* the two together: a decorated rendering of a well-formed sheet imports to block_of *)
+Corollary render_import p st c decos total : wf_style st -> wf_cue c ->
+  length decos = length (cue_lines st c) -> Forall wf_deco decos ->
+  total mod 588 = 0 -> before_end c total ->
+  exists b, block_of c total = Some b /\ cue_parse p total (render decos (cue_lines st c)) = Ok b /\
+            track_sample_ranges b = pair_up (map index01_samples (cu_tracks c) ++ [total]).
+Proof.
+  intros Ws Wc Hlen Hd Hm He.
+  destruct (cue_import p st c total (render decos (cue_lines st c)) Wc Hm He (render_matches st c decos Ws Wc Hlen Hd)) as (b & Hb & Hp).
+  exists b. split; [exact Hb|]. split; [exact Hp|]. apply import_ranges; assumption.
+Qed.
+
+(* ================================================================================== *)
+(* export (Display) then import                                                        *)
+(* ================================================================================== *)
+(* the sheet that Display writes: no CATALOG, ISRC or FLAGS lines *)
+Definition strip_track (t : cue_track) : cue_track := mkCT (ct_num t) false None (ct_indices t).
+Definition strip_cue (c : cue) : cue := mkCue None (map strip_track (cu_tracks c)).
+(* the spelling Display uses: TRACK n unpadded, INDEX nn and MM:SS:FF padded, type AUDIO *)
+Definition display_style : style := mkStyle false true true false false false true str_AUDIO.
+Definition file_line (fname : list N) : list N := [70; 73; 76; 69; 32; 34] ++ fname ++ [34; 32; 70; 76; 65; 67].
+
+Lemma timestamp_samples i : wf_index i -> timestamp (ci_samples i) = time_text display_style i.
+Proof.
+  intros (Hs & Hf & _). unfold timestamp, time_text, display_style, num. cbn [st_pad_time].
+  unfold ci_samples. rewrite N.div_mul by discriminate.
+  assert (E1 : ci_frames i / 75 = ci_ss i + 60 * ci_mm i).
+  { unfold ci_frames. symmetry. apply (N.div_unique _ 75 _ (ci_ff i)); lia. }
+  assert (E2 : ci_frames i mod 75 = ci_ff i).
+  { unfold ci_frames. symmetry. apply (N.mod_unique _ 75 (ci_ss i + 60 * ci_mm i)); lia. }
+  rewrite E1, E2.
+  assert (E3 : (ci_ss i + 60 * ci_mm i) / 60 = ci_mm i) by (symmetry; apply (N.div_unique _ 60 _ (ci_ss i)); lia).
+  assert (E4 : (ci_ss i + 60 * ci_mm i) mod 60 = ci_ss i) by (symmetry; apply (N.mod_unique _ 60 (ci_mm i)); lia).
+  rewrite E3, E4. reflexivity.
+Qed.
+
+Lemma display_index_line off i : wf_index i -> off <= ci_samples i ->
+  str_INDEX ++ dec02 (ix_num (index_of off i)) ++ [32] ++ timestamp (sat_add64 (ix_off (index_of off i)) off) ++ [10]
+  = decorate_line (mkDeco [32; 32; 32; 32] [] false, index_line display_style i).
+Proof.
+  intros W Hoff. unfold index_of. cbn [ix_num ix_off]. unfold sat_add64.
+  replace (ci_samples i - off + off) with (ci_samples i) by lia.
+  destruct W as (Hs & Hf & Hm). rewrite N.min_l by exact Hm.
+  rewrite (timestamp_samples i (conj Hs (conj Hf Hm))).
+  unfold decorate_line, index_line, display_style, num, str_INDEX, kw_INDEX. cbn [fst snd d_indent d_trail d_crlf st_pad_index app].
+  rewrite <- !app_assoc. reflexivity.
+Qed.
+
+Lemma chain_ge : forall l pf pn, index_chain pf pn l -> Forall (fun i => pf <= ci_frames i) l.
+Proof.
+  induction l as [|i l IH]; intros a b Hc; [constructor|]. cbn [index_chain] in Hc. destruct Hc as (H1 & _ & H3).
+  constructor; [lia|]. eapply Forall_impl; [|eapply IH; exact H3]. cbn. intros; lia.
+Qed.
+
+Lemma display_index_lines off : forall idxs, Forall wf_index idxs -> Forall (fun i => off <= ci_samples i) idxs ->
+  flat_map (fun i => str_INDEX ++ dec02 (ix_num i) ++ [32] ++ timestamp (sat_add64 (ix_off i) off) ++ [10])
+           (map (index_of off) idxs)
+  = flat_map decorate_line (map (fun l => (mkDeco [32; 32; 32; 32] [] false, l)) (map (index_line display_style) idxs)).
+Proof.
+  induction idxs as [|i r IH]; intros W G; [reflexivity|]. inversion W; inversion G; subst.
+  cbn [map flat_map]. rewrite display_index_line by assumption. rewrite IH by assumption. reflexivity.
+Qed.
+
+Lemma display_track_lines t trk : wf_track t -> track_of t = Some trk ->
+  display_track trk =
+  flat_map decorate_line
+    ((mkDeco [32; 32] [] false, track_line display_style (strip_track t)) ::
+     map (fun l => (mkDeco [32; 32; 32; 32] [] false, l)) (map (index_line display_style) (ct_indices t))).
+Proof.
+  intros W H. destruct (finish_full t W) as (trk' & Htr & _ & Hoff & Hnm & Hl). rewrite Htr in H. injection H as <-.
+  assert (Hna : tr_non_audio trk' = false).
+  { unfold track_of in Htr. destruct (ct_indices t); [discriminate|]. destruct (indexvec_try_from _); try discriminate. injection Htr as <-. reflexivity. }
+  unfold display_track. rewrite Hna, Hnm, Hl, Hoff. cbn [flat_map].
+  unfold decorate_line at 1. cbn [fst snd d_indent d_trail d_crlf]. unfold track_line, strip_track, display_style, num, str_TRACK, kw_TRACK.
+  cbn [st_pad_track ct_num st_type app]. rewrite <- !app_assoc. cbn [app]. do 8 f_equal.
+  destruct W as (Wix & Wshape & _). unfold first_samples.
+  destruct (ct_indices t) as [|i0 r] eqn:E; [contradiction|]. destruct Wshape as (_ & Hch & _).
+  assert (Hge : Forall (fun i => ci_samples i0 <= ci_samples i) (i0 :: r)).
+  { constructor; [lia|]. eapply Forall_impl; [|apply (chain_ge r _ _ Hch)]. cbn. intros a Ha. rewrite !samples_frames. lia. }
+  do 4 f_equal. exact (display_index_lines (ci_samples i0) (i0 :: r) Wix Hge).
+Qed.
+
+Lemma strip_wf_track t : wf_track t -> wf_track (strip_track t).
+Proof. intros (A & B & _). unfold wf_track, strip_track. cbn [ct_indices ct_isrc]. auto. Qed.
+
+Lemma strip_sheet_ok : forall ts n p, sheet_ok n p ts -> sheet_ok n p (map strip_track ts).
+Proof.
+  induction ts as [|t r IH]; intros n p H; [exact I|]. cbn [map sheet_ok] in *.
+  destruct H as (Hn & W & Hp & Hr). split; [exact Hn|]. split; [apply strip_wf_track, W|]. split; [exact Hp|].
+  apply IH. exact Hr.
+Qed.
+
+Lemma strip_wf_cue c : wf_cue c -> wf_cue (strip_cue c).
+Proof.
+  intros (Hne & Hlen & Hsheet & _). unfold wf_cue, strip_cue. cbn [cu_tracks cu_catalog].
+  split; [destruct (cu_tracks c); [congruence|discriminate]|]. split; [rewrite lenN_length, map_length, <- lenN_length; exact Hlen|].
+  split; [apply strip_sheet_ok, Hsheet|exact I].
+Qed.
+
+Lemma strip_before_end c total : before_end c total -> before_end (strip_cue c) total.
+Proof.
+  unfold before_end, strip_cue. cbn [cu_tracks]. intros H. apply Forall_map. eapply Forall_impl; [|exact H]. intros t Ht. exact Ht.
+Qed.
+
+(* the layout of a block: what Display writes and the property compares *)
+Definition layout (b : cuesheet) : list (N * N * indexvec) * N :=
+  (map (fun t => (tr_off t, tr_num t, tr_ix t)) (cue_tracks b), lo_off (cue_leadout b)).
+
+Lemma strip_track_of t trk : track_of t = Some trk ->
+  track_of (strip_track t) = Some (mkTrack (tr_off trk) (tr_num trk) IsrcNone false false (tr_ix trk)).
+Proof.
+  unfold track_of, strip_track. cbn [ct_indices ct_num ct_isrc ct_pre].
+  destruct (ct_indices t) as [|i0 r]; [discriminate|]. destruct (indexvec_try_from _) as [iv| |]; try discriminate.
+  intros H. injection H as <-. reflexivity.
+Qed.
+
+Lemma strip_tracks_of : forall ts trks, tracks_of ts = Some trks ->
+  exists trks', tracks_of (map strip_track ts) = Some trks' /\
+                map (fun t => (tr_off t, tr_num t, tr_ix t)) trks' = map (fun t => (tr_off t, tr_num t, tr_ix t)) trks.
+Proof.
+  induction ts as [|t r IH]; intros trks H; cbn [tracks_of map] in *.
+  - injection H as <-. exists []. auto.
+  - destruct (track_of t) as [trk|] eqn:Et; [|discriminate]. destruct (tracks_of r) as [tr|] eqn:Er; [|discriminate].
+    injection H as <-. destruct (IH tr eq_refl) as (tr' & E' & L'). rewrite (strip_track_of t trk Et), E'.
+    eexists. split; [reflexivity|]. cbn [map tr_off tr_num tr_ix]. rewrite L'. reflexivity.
+Qed.
+
+Lemma display_is_render c total b fname : wf_cue c -> block_of c total = Some b ->
+  exists dls, display b fname = flat_map decorate_line dls /\
+              map snd dls = file_line fname :: cue_lines display_style (strip_cue c) /\
+              Forall (fun dl => wf_deco (fst dl)) dls.
+Proof.
+  intros (_ & _ & Hsheet & _) H. unfold block_of in H.
+  destruct (tracks_of (cu_tracks c)) as [trks|] eqn:E; [|discriminate]. injection H as <-.
+  pose proof (sheet_ok_wf _ _ _ Hsheet) as Wall.
+  assert (G : forall ts trks, Forall wf_track ts -> tracks_of ts = Some trks ->
+    exists dls, flat_map display_track trks = flat_map decorate_line dls /\
+                map snd dls = flat_map (track_lines display_style) (map strip_track ts) /\
+                Forall (fun dl => wf_deco (fst dl)) dls).
+  { induction ts as [|t r IH]; intros tk W Ht; cbn [tracks_of] in Ht.
+    - injection Ht as <-. exists []. cbn. auto.
+    - inversion W as [|? ? Wt Wr]; subst. destruct (track_of t) as [trk|] eqn:Et; [|discriminate].
+      destruct (tracks_of r) as [tr|] eqn:Er; [|discriminate]. injection Ht as <-.
+      destruct (IH tr Wr eq_refl) as (dls & D1 & D2 & D3).
+      exists (((mkDeco [32; 32] [] false, track_line display_style (strip_track t)) ::
+               map (fun l => (mkDeco [32; 32; 32; 32] [] false, l)) (map (index_line display_style) (ct_indices t))) ++ dls).
+      split; [|split].
+      + cbn [flat_map]. rewrite (display_track_lines t trk Wt Et), D1. rewrite flat_map_app. reflexivity.
+      + rewrite map_app, D2. cbn [map flat_map snd]. unfold track_lines at 2, strip_track at 2 3 4.
+        cbn [ct_pre ct_isrc ct_indices app]. rewrite map_map. cbn [snd]. rewrite map_id.
+        destruct (st_flags_first display_style); reflexivity.
+      + apply Forall_app. split; [|exact D3]. constructor.
+        * cbn [fst]. split; repeat constructor; cbn; try discriminate.
+        * apply Forall_map. apply Forall_forall. intros l _. cbn [fst]. split; repeat constructor; cbn; try discriminate. }
+  destruct (G (cu_tracks c) trks Wall E) as (dls & D1 & D2 & D3).
+  exists ((mkDeco [] [] false, file_line fname) :: dls). split; [|split].
+  - unfold display. cbn [cue_tracks flat_map]. rewrite D1. unfold decorate_line at 2. cbn [fst snd d_indent d_trail d_crlf app].
+    unfold str_FILE, str_FLAC, file_line. rewrite <- !app_assoc. reflexivity.
+  - cbn [map snd]. rewrite D2. unfold cue_lines, strip_cue. cbn [cu_catalog cu_tracks app]. reflexivity.
+  - constructor; [cbn [fst]; split; constructor|exact D3].
+Qed.
+
+Lemma file_line_skipped fname : significant (file_line fname) = false.
+Proof. reflexivity. Qed.
+
+Lemma file_line_clean fname : no_nl fname -> clean (file_line fname) /\ no_nl (file_line fname).
+Proof.
+  intros H. split.
+  - unfold file_line. change ([70; 73; 76; 69; 32; 34] ++ fname ++ [34; 32; 70; 76; 65; 67])
+      with ((70 :: [73; 76; 69; 32; 34] ++ fname ++ [34; 32; 70; 76; 65]) ++ [67]) at 1 || idtac.
+    replace ([70; 73; 76; 69; 32; 34] ++ fname ++ [34; 32; 70; 76; 65; 67])
+      with ((70 :: ([73; 76; 69; 32; 34] ++ fname ++ [34; 32; 70; 76; 65])) ++ [67]) by (cbn [app]; rewrite <- !app_assoc; reflexivity).
+    apply clean_intro; reflexivity.
+  - unfold file_line. apply no_nl_app; [intros Hin; cbn in Hin; repeat (destruct Hin as [Hin|Hin]; [discriminate|]); exact Hin|].
+    apply no_nl_app; [exact H|]. intros Hin; cbn in Hin; repeat (destruct Hin as [Hin|Hin]; [discriminate|]); exact Hin.
+Qed.
+
+(* exporting an imported block with Display and importing that text again reproduces the
+   track and index layout (CATALOG, ISRC and FLAGS are not part of the exported text) *)
+Theorem display_import p c total b fname : wf_cue c -> total mod 588 = 0 -> before_end c total ->
+  block_of c total = Some b -> no_nl fname ->
+  exists b', cue_parse p total (display b fname) = Ok b' /\ layout b' = layout b /\
+             track_sample_ranges b' = track_sample_ranges b.
+Proof.
+  intros Wc Hm He Hb Hf.
+  destruct (display_is_render c total b fname Wc Hb) as (dls & D1 & D2 & D3).
+  pose proof (strip_wf_cue c Wc) as Wc'.
+  assert (Ws : wf_style display_style).
+  { split; [discriminate|]. repeat constructor; cbn; discriminate. }
+  pose proof (cue_lines_ok display_style (strip_cue c) Ws Wc') as Hok.
+  assert (Hmatch : cue_text_matches display_style (strip_cue c) (display b fname) = true).
+  { unfold cue_text_matches. rewrite D1, lines_render.
+    - rewrite D2. cbn [filter]. rewrite file_line_skipped.
+      rewrite filter_all_true; [apply lines_eqb_refl|]. eapply Forall_impl; [|exact Hok]. intros l (_ & _ & S). exact S.
+    - (* every line is decorated with blanks only, clean and newline free *)
+      assert (Hs : Forall (fun l => clean l /\ no_nl l) (map snd dls)).
+      { rewrite D2. constructor; [apply file_line_clean, Hf|]. eapply Forall_impl; [|exact Hok]. intros l (A & B & _). auto. }
+      clear -D3 Hs. induction dls as [|[d l] q IH]; [constructor|].
+      inversion D3; inversion Hs; subst. constructor; [cbn [fst snd] in *; tauto|apply IH; assumption]. }
+  destruct (cue_import p display_style (strip_cue c) total (display b fname) Wc' Hm (strip_before_end c total He) Hmatch) as (b' & Hb' & Hp).
+  exists b'. split; [exact Hp|].
+  unfold block_of in Hb, Hb'. unfold strip_cue in Hb'. cbn [cu_tracks cu_catalog] in Hb'.
+  destruct (tracks_of (cu_tracks c)) as [trks|] eqn:E; [|discriminate]. injection Hb as <-.
+  destruct (strip_tracks_of (cu_tracks c) trks E) as (trks' & E' & L'). rewrite E' in Hb'. injection Hb' as <-.
+  split.
+  - unfold layout. cbn [cue_tracks cue_leadout lo_off]. rewrite L'. reflexivity.
+  - unfold track_sample_ranges, track_offsets. cbn [cue_tracks cue_leadout lo_off]. f_equal. f_equal.
+    (* the INDEX 01 positions are a function of the layout *)
+    assert (M : forall l1 l2 : list track, map (fun t => (tr_off t, tr_num t, tr_ix t)) l1 = map (fun t => (tr_off t, tr_num t, tr_ix t)) l2 ->
+                map (fun t => sat_add64 (tr_off t) (ix_off (iv_01 (tr_ix t)))) l1 = map (fun t => sat_add64 (tr_off t) (ix_off (iv_01 (tr_ix t)))) l2).
+    { induction l1 as [|x l1 IH]; intros [|y l2] H; cbn [map] in *; try discriminate; [reflexivity|].
+      injection H as H1 H2 H3 H4. rewrite H1, H3, (IH l2 H4). reflexivity. }
+    apply M, L'.
 Qed.
